@@ -402,7 +402,7 @@ fn session_rows(sess: &grafeo_engine::Session, lang: &str, text: &str) -> Result
 /// Applies one random mutation through the API and returns the updated graph JSON.
 fn mutate(rng: &mut StdRng, g: &mut Graph) {
     let nodes = g.json["nodes"].as_array().cloned().unwrap_or_default();
-    let roll = rng.random_range(0..4);
+    let roll = [0, 1, 1, 1, 2, 3][rng.random_range(0..6)];
     if nodes.is_empty() || roll == 0 {
         let i = nodes.len() as i64;
         let k = rng.random_range(0..4);
@@ -411,7 +411,9 @@ fn mutate(rng: &mut StdRng, g: &mut Graph) {
     } else if roll == 1 {
         let idx = rng.random_range(0..nodes.len());
         let id = nodes[idx]["id"].as_u64().unwrap();
-        let k = rng.random_range(0..4);
+        // often the value the node already has (a write that changes nothing must not disturb the index)
+        let cur = nodes[idx]["props"].as_array().and_then(|ps| ps.iter().find(|p| p[0] == "k")).and_then(|p| p[1]["v"].as_i64());
+        let k = match cur { Some(c) if rng.random_bool(0.45) => c, _ => rng.random_range(0..4) };
         g.db.set_node_property(grafeo_common::types::NodeId::new(id), "k", Value::Int64(k));
         let props = g.json["nodes"][idx]["props"].as_array_mut().unwrap();
         props.retain(|p| p[0] != "k");
@@ -478,7 +480,7 @@ pub fn main(o: &Opts) -> i32 {
                             emit_case(&mut out, cid, lang, &text, &g.json, &q, json!({"idx": idx, "via": format!("pipeline factorized={fact}")}), exec_pipeline(&g.db, lang, &text, Some((true, true, true)), fact));
                         }
                         // the data changes, the same query text is executed again (cached plan)
-                        mutate(&mut rng, &mut g);
+                        for _ in 0..rng.random_range(1..=5) { mutate(&mut rng, &mut g); }
                         cid += 1;
                         emit_case(&mut out, cid, lang, &text, &g.json, &q, json!({"idx": idx, "via": "session-after-change"}), session_rows(&sess, lang, &text));
                     }
